@@ -133,7 +133,9 @@ func checkSettingsWriters(c *Ctx, r *Report, rule string, onlyPkgs []string) {
 					allowed = true
 				}
 			}
-			if allowed {
+			if allowed && root.Name() == "Close" {
+				r.Bad(rule, construct, c.Pos(in.Pos()), fmt.Sprintf("the setting %s (stored by option %s) is cleared or rewritten while the object is being closed: the owner of this setting derives it once from what the caller configured, and closing is not configuring -- a caller that closes and opens the same object again gets a session built from something other than its options", f.Name(), opt))
+			} else if allowed {
 				r.OK(rule, construct, c.Pos(in.Pos()), "run-time owner of this setting")
 			} else {
 				r.Bad(rule, construct, c.Pos(in.Pos()), fmt.Sprintf("the setting %s (stored by option %s) is overwritten at run time by code that is neither an option nor a constructor: what the caller configured -- or deliberately left off -- is changed behind their back, for every later operation of the object", f.Name(), opt))
@@ -341,15 +343,11 @@ func checkLevelCacheWriters(c *Ctx, r *Report, rule string) {
 					detected = true
 				}
 			}
-			if _, isConst := val.(*ssa.Const); isConst && !detected {
-				// resetting to a constant ("unknown") is harmless: the next command re-acquires
-				r.OK(rule, construct, c.Pos(in.Pos()), "reset to a constant")
-				return
-			}
+			_ = val
 			if detected {
 				r.OK(rule, construct, c.Pos(in.Pos()), "in the function that determines the level from the device's prompt")
 			} else {
-				r.Bad(rule, construct, c.Pos(in.Pos()), "the cached privilege level is set without having been determined from the device's prompt: send-command trusts this cache and skips the acquire when it equals the default desired level, so commands run at whatever level the device is really in")
+				r.Bad(rule, construct, c.Pos(in.Pos()), "the cached privilege level is written (set or forgotten) outside the function that determines it from the device's prompt: send-command trusts this cache and skips the acquire when it equals the default desired level, and the acquire uses it as the first tie-breaker between levels whose prompts look alike (the junos configuration modes) -- so commands run at whatever level the device is really in")
 			}
 		})
 	}
